@@ -30,7 +30,8 @@ SCAFFOLD = [('S', {'A1': 1.5, 'B1': 1, 'C1': '=ROUND(A1,B1)', 'D1': '=ROUNDUP(A1
                    # the same calls with arguments that are expressions, bracketed, or read through a formula cell
                    'Q1': '=A1', 'R1': '=ROUND(A1+0,B1+0)', 'S1': '=ROUNDUP((A1),(B1))', 'T1': '=ROUNDDOWN(Q1,B1*1)',
                    'U1': '=ROUND(A1,B1)+0', 'V1': '=-ROUNDUP(-A1,B1)', 'W1': '=IF(TRUE,ROUNDDOWN(A1,B1),0)',
-                   'L1': '=A1%+0', 'M1': '=A1%-0', 'N1': '=0+A1%', 'O1': '=A1%+A1%', 'P1': '=A1%*1'})]
+                   'L1': '=A1%+0', 'M1': '=A1%-0', 'N1': '=0+A1%', 'O1': '=A1%+A1%', 'P1': '=A1%*1',
+                   'X1': '=A1%-2', 'Y1': '=A1%+2', 'Z1': '=2-A1%', 'AA1': '=A1%-A1%'})]
 FADDR = {'ROUND': 'C1', 'ROUNDUP': 'D1', 'ROUNDDOWN': 'E1'}
 
 
@@ -141,24 +142,27 @@ def judge_round(case, outs, src, stats, i, vio, funcs=None):
             vio.append({'i': i, 'desc': desc, 'expected': exps[f], 'observed': S.obs(o)})
 
 
-def pct_expected(x: str, times=1):
+def pct_expected(x: str, times=1, plus=0):
     v = num(x)
     d = Decimal(repr(v)) if isinstance(v, float) else Decimal(v)
-    return float(d * times / 100)
+    return float(d * times / 100 + plus)
 
 
 def sig15(v):
     return float('%.15g' % v)
 
 
-def judge_pct(case, o, src, stats, i, vio, times=1):
+def judge_pct(case, o, src, stats, i, vio, times=1, plus=0):
     x = case['x']
-    e = pct_expected(x, times)
+    e = pct_expected(x, times, plus)
     stats['validated'] += 1
     stats['nontrivial'] += 1
     stats['out:' + S.out_label(o)] += 1
     k, v = o
     ok = k == 'VALUE' and not isinstance(v, bool) and isinstance(v, (int, float)) and not D.is_blank(v) and v == sig15(e)
+    if not ok and plus and k == 'VALUE' and isinstance(v, (int, float)) and not isinstance(v, bool) and not D.is_blank(v):
+        # x% next to another term: the statement fixes x% itself (15 digits), not how the sum is rounded afterwards
+        ok = abs(v - e) <= 1e-13 * max(1.0, abs(e))
     if not ok:
         d = Decimal(x)
         vio.append({'i': i, 'desc': {'func': 'PERCENT', 'sign': 'neg' if d < 0 else ('zero' if d == 0 else 'pos'), 'src': src,
@@ -232,8 +236,10 @@ def run_pct_ov(cases, stats):
     cls = S.get_class(SCAFFOLD, stats=stats)
     vio = []
     for i, c in enumerate(cases):
-        o = S.run(cls, [('A1', num(c['x']))], ['F1', 'L1', 'M1', 'N1', 'O1', 'P1'], stats)
+        o = S.run(cls, [('A1', num(c['x']))], ['F1', 'L1', 'M1', 'N1', 'O1', 'P1', 'X1', 'Y1', 'Z1', 'AA1'], stats)
         judge_pct(c, o[0], 'ov', stats, i, vio)
+        for form, oo, (k, plus) in (('x%-2', o[6], (1, -2)), ('x%+2', o[7], (1, 2)), ('2-x%', o[8], (-1, 2)), ('x%-x%', o[9], (0, 0))):
+            judge_pct(c, oo, 'ov:' + form, stats, i, vio, times=k, plus=plus)
         for form, oo, k in (('x%+0', o[1], 1), ('x%-0', o[2], 1), ('0+x%', o[3], 1), ('x%+x%', o[4], 2), ('x%*1', o[5], 1)):
             judge_pct(c, oo, 'ov:' + form, stats, i, vio, times=k)
     return vio
